@@ -4,8 +4,9 @@ Histories: subject in {lists of length 3, 4, 5, 8 (capacities 4 and 8: below, at
 the growth boundary), map, instance}; aliases held in a variable, an instance field, nested
 lists of depth 1 and 2, a map value, a closure capture and a value passed through a channel;
 every sequence of <= L mutating operations (push, insert, remove, pop, index assignment,
-clear / map set, remove / field write), each applied through one of 4 aliases; program at
-module level and inside a function. After every operation: == of the subject with every
+clear / map set, remove / field write), each applied through one of 4 aliases; the aliases
+are taken before the history or only after its first 1-2 operations (which may already have
+grown the list); program at module level and inside a function. After every operation: == of the subject with every
 alias, lookups in a map keyed by the subject before the history (through two aliases),
 list.has/index and tuple.has/index of containers holding it, and the contents through
 every alias.
@@ -48,7 +49,7 @@ def contents(kind, a):
     return ["get", a, "f"]
 
 
-def program(kind, init, ops, infn):
+def program(kind, init, ops, infn, alias_after=0):
     if kind == "list":
         subj = ["list", [N(x) for x in init]]
     elif kind == "map":
@@ -57,7 +58,10 @@ def program(kind, init, ops, infn):
         subj = call("Thing")
     pre = [["class", "Box", None, [("method", "init", ["v"], [["expr", ["set", ["self"], "v", V("v")]]])]],
            ["class", "Thing", None, [("method", "init", [], [["expr", ["set", ["self"], "f", N(0)]]])]]]
-    body = [["let", "subj", subj], ["let", "other", ["list", [N(1), N(2), N(3)]] if kind == "list" else (["map", [(S("a"), N(1)), (S("b"), N(2))]] if kind == "map" else call("Thing"))],
+    early = [op_stmt(kind, op, "subj", 50 + k) for k, (op, alias) in enumerate(ops[:alias_after])]
+    ops = ops[alias_after:]
+    # `early` operations run while the subject is only held by its own variable; every alias, key and container is taken afterwards
+    body = [["let", "subj", subj]] + early + [["let", "other", ["list", [N(1), N(2), N(3)]] if kind == "list" else (["map", [(S("a"), N(1)), (S("b"), N(2))]] if kind == "map" else call("Thing"))],
             ["let", "loc", V("subj")], ["let", "box", call("Box", V("subj"))], ["let", "nest1", ["list", [V("subj")]]], ["let", "nest2", ["list", [["list", [V("subj")]]]]],
             ["let", "mval", ["map", [(S("k"), V("subj"))]]], ["let", "cap", V("subj")], ["let", "clo", ["lambda", [], V("cap"), True]],
             ["let", "ch", ["chan", N(1)]], ["expr", ["send", V("ch"), V("subj")]], ["let", "via", ["recv", V("ch")]],
@@ -81,11 +85,13 @@ def program(kind, init, ops, infn):
     return pre + body
 
 
-def grew(init_len, ops):
-    """model-side guard of D6: did the list grow past its capacity (max(4, literal length)) by step k? returns first step index (1-based) or None"""
+def grew(init_len, ops, alias_after=0):
+    """model-side guard of D6: did the list grow past its capacity (max(4, literal length), doubling) after the aliases were taken? returns the first such step
+    (1-based, counted from the first operation after aliasing) or None"""
     cap = max(4, init_len)
     n = init_len
     for k, (op, alias) in enumerate(ops):
+        k = k - alias_after
         add = {"push": 1, "insert": 1, "push2": 2}.get(op, 0)
         if op in ("remove", "pop") and n > 0:
             n -= 1
@@ -93,7 +99,10 @@ def grew(init_len, ops):
             n = 0
         if add:
             if n + add > cap:
-                return k + 1
+                if k >= 0:
+                    return k + 1
+                while n + add > cap:
+                    cap *= 2
             n += add
     return None
 
@@ -116,6 +125,11 @@ class C10(Check):
                         als = itertools.product(aliases, repeat=n) if n <= 2 else [tuple(aliases[(i + j) % 4] for j in range(n)) for i in range(4)]
                         for al in als:
                             yield ("list", tuple(init), tuple(zip(ops, al)), infn)
+                        # the same histories with the aliases taken only after the first 1 or 2 operations (which may already have grown the list)
+                        for aa in (1, 2):
+                            if n > aa or (n == aa and n >= 1):
+                                for al in ([tuple(aliases[(i + j) % 4] for j in range(n)) for i in range(4)] if n else []):
+                                    yield ("list", tuple(init), tuple(zip(ops, al)), infn, aa)
             for kind, OPS in (("map", MAP_OPS), ("inst", INST_OPS)):
                 for n in range(0, L_ + 1):
                     for ops in itertools.product(OPS, repeat=n):
@@ -123,10 +137,10 @@ class C10(Check):
                             yield (kind, (), tuple(zip(ops, al)), infn)
 
     def describe(self, spec):
-        return "subject=%s%s ops=%s in_function=%s" % (spec[0], list(spec[1]) or "", ["%s via %s" % o for o in spec[2]], spec[3])
+        return "subject=%s%s ops=%s in_function=%s aliases_taken_after=%d" % (spec[0], list(spec[1]) or "", ["%s via %s" % o for o in spec[2]], spec[3], spec[4] if len(spec) > 4 else 0)
 
     def build(self, spec):
-        stmts = program(spec[0], spec[1], spec[2], spec[3])
+        stmts = program(spec[0], spec[1], spec[2], spec[3], spec[4] if len(spec) > 4 else 0)
         src, _ = L.render(stmts)
         try:
             exp = L.Interp().run(stmts)[:3]
@@ -148,7 +162,8 @@ class C10(Check):
         v = Verdict(False, True, "mismatch", "first difference at output line %d: expected %r got %r; class=%s err=%r %s" % (
             k, exp_l[k] if k < len(exp_l) else None, got_l[k] if k < len(got_l) else None, r.get("class"), r.get("err", "")[-200:], r.get("panic") or ""))
         if spec[0] == "list":
-            g = grew(len(spec[1]), spec[2])
+            aa = spec[4] if len(spec) > 4 else 0
+            g = grew(len(spec[1]), spec[2], aa)
             # observe() prints 5 lines; block b (0 = before any operation) starts at line 5*b (+ op! lines, at most one per op)
             if g is not None and k >= 5 * g and r.get("class") in ("ok", "runtime_error") and not (r.get("panic")):
                 bad = (exp_l[k] if k < len(exp_l) else "").split(" ")[0]
